@@ -35,7 +35,7 @@ def build(_exp=None):
 use crate::essential_types::{predicate::{Predicate, Node}, solution::{Solution, SolutionIndex, SolutionSet, Mutation}, Key, PredicateAddress, Word, ContentAddress, Value};
 use crate::vm::{self, Gas, Memory, StateRead}; use crate::ext::{vm_error, asm::FromBytesError};
 use std::collections::{BTreeMap, HashMap, HashSet}; use std::sync::Arc; use crate::*;
-broadcast use {crate::spec_from_is_from, crate::key_model_slot_ref, crate::key_model_slot, crate::key_model_key, crate::key_model_ca};""")
+broadcast use {crate::spec_from_is_from, crate::key_model_slot_ref, crate::key_model_slot, crate::key_model_key, crate::key_model_ca, crate::vec_default_empty};""")
     for c in ('MAX_PREDICATE_DATA', 'MAX_SOLUTIONS', 'MAX_STATE_MUTATIONS', 'MAX_VALUE_SIZE', 'MAX_KEY_SIZE'):
         so.item('const ' + c)
     for e in ('InvalidSolutionSet', 'InvalidSolution', 'KvError', 'InvalidSetStateMutations'):
@@ -195,27 +195,60 @@ pub proof fn lemma_proposed(cs: Map<Key, Value>, key: Key)
           loops={2: {'iter_name': 'ito', 'invariant': '''set.solutions@.len() == n0, ito.seq() == outputs.data@, 0 <= ito.index@ <= ito.seq().len(),
                         forall|k: int| 0 <= k < outputs.data@.len() ==> ((#[trigger] outputs.data@[k]).solution_index as int) < n0'''}},
           props=('C16', 'C06')))
+    _S2 = 'predicate.starts(), predicate.edges@'
     so.fn('create_parent_map', F('create_parent_map', ensures="""
             // malformed graphs (invalid edge slice, edge to a missing node) are rejected, well-formed ones accepted
-            r is Ok <==> crate::graph_ok(predicate.starts(), predicate.edges@),
-            r matches Ok(m) ==> forall|n: u16| (n as int) < predicate.nodes@.len() ==> m@.contains_key(n)""",
+            r is Ok <==> crate::graph_ok(%(S)s),
+            r matches Ok(m) ==> forall|n: u16| (n as int) < predicate.nodes@.len() ==> m@.contains_key(n),
+            // every node is mapped to its parents in ascending order, one entry per edge
+            predicate.nodes@.len() <= 0x1_0000 ==> (r matches Ok(m) ==> forall|n: u16| #[trigger] m@.contains_key(n) ==> m@[n]@ == crate::parents_of(%(S)s, n))""" % {'S': _S2},
         loops={0: {'iter_name': 'itn', 'head_proof': 'assert(predicate.starts().len() == predicate.nodes@.len());',
-                   'invariant': """forall|i: int| 0 <= i < itn.index@ ==> #[trigger] crate::node_ok(predicate.starts(), predicate.edges@, i),
-                    forall|n: u16| (n as int) < itn.index@ ==> nodes@.contains_key(n)"""},
-               1: {'iter_name': 'ite', 'after_proof': 'assert(crate::node_ok(predicate.starts(), predicate.edges@, node_ix as int));',
+                   'invariant': """forall|i: int| 0 <= i < itn.index@ ==> #[trigger] crate::node_ok(%(S)s, i),
+                    forall|n: u16| (n as int) < itn.index@ ==> nodes@.contains_key(n),
+                    predicate.nodes@.len() <= 0x1_0000 ==> (forall|n: u16| #[trigger] nodes@.contains_key(n) ==> nodes@[n]@ == crate::plist(%(S)s, n, itn.index@ as int, 0)),
+                    predicate.nodes@.len() <= 0x1_0000 ==> (forall|n: u16| !nodes@.contains_key(n) ==> (#[trigger] crate::plist(%(S)s, n, itn.index@ as int, 0)).len() == 0)""" % {'S': _S2}},
+               1: {'iter_name': 'ite', 'after_proof': """assert(crate::node_ok(%(S)s, node_ix as int));
+                        let el = crate::node_edges_spec(%(S)s, node_ix as int)->Some_0.len() as int;
+                        assert forall|n: u16| #[trigger] crate::plist(%(S)s, n, node_ix as int + 1, 0) == crate::plist(%(S)s, n, node_ix as int, el) by { }
+                        if predicate.nodes@.len() <= 0x1_0000 {
+                            assert forall|n: u16| #[trigger] nodes@.contains_key(n) implies nodes@[n]@ == crate::plist(%(S)s, n, node_ix as int + 1, 0) by { assert(nodes@[n]@ == crate::plist(%(S)s, n, node_ix as int, el)); }
+                            assert forall|n: u16| !nodes@.contains_key(n) implies (#[trigger] crate::plist(%(S)s, n, node_ix as int + 1, 0)).len() == 0 by { assert(crate::plist(%(S)s, n, node_ix as int, el).len() == 0); } }""" % {'S': _S2},
+                   'head_ghost': 'let ghost old_nodes = nodes@;',
+                   'tail_proof': """let es = crate::node_edges_spec(%(S)s, node_ix as int)->Some_0; let k = ite.index@ as int;
+                        assert(es[k] == *edge);
+                        if predicate.nodes@.len() <= 0x1_0000 {
+                            assert((node_ix as u16) as int == node_ix);
+                            assert forall|n: u16| true implies #[trigger] crate::plist(%(S)s, n, node_ix as int, k + 1)
+                                    == (if n == *edge { crate::plist(%(S)s, n, node_ix as int, k).push(node_ix as u16) } else { crate::plist(%(S)s, n, node_ix as int, k) }) by { }
+                            assert forall|n: u16| #[trigger] nodes@.contains_key(n) implies nodes@[n]@ == crate::plist(%(S)s, n, node_ix as int, k + 1) by {
+                                if n == *edge {
+                                    if old_nodes.contains_key(n) { assert(nodes@[n]@ =~= old_nodes[n]@.push(node_ix as u16)); }
+                                    else { assert(crate::plist(%(S)s, n, node_ix as int, k).len() == 0); assert(nodes@[n]@ =~= crate::plist(%(S)s, n, node_ix as int, k).push(node_ix as u16)); } }
+                                else { assert(old_nodes.contains_key(n)); assert(nodes@[n] == old_nodes[n]); } }
+                            assert forall|n: u16| !nodes@.contains_key(n) implies (#[trigger] crate::plist(%(S)s, n, node_ix as int, k + 1)).len() == 0 by {
+                                assert(!old_nodes.contains_key(n)); assert(n != *edge); } }""" % {'S': _S2},
                    'invariant': """0 <= node_ix < predicate.nodes@.len(), predicate.starts().len() == predicate.nodes@.len(),
-                    crate::node_edges_spec(predicate.starts(), predicate.edges@, node_ix as int) is Some,
-                    ite.seq().len() == crate::node_edges_spec(predicate.starts(), predicate.edges@, node_ix as int)->Some_0.len(),
-                    forall|k: int| 0 <= k < ite.seq().len() ==> *(#[trigger] ite.seq()[k]) == crate::node_edges_spec(predicate.starts(), predicate.edges@, node_ix as int)->Some_0[k],
+                    crate::node_edges_spec(%(S)s, node_ix as int) is Some,
+                    ite.seq().len() == crate::node_edges_spec(%(S)s, node_ix as int)->Some_0.len(),
+                    forall|k: int| 0 <= k < ite.seq().len() ==> *(#[trigger] ite.seq()[k]) == crate::node_edges_spec(%(S)s, node_ix as int)->Some_0[k],
                     0 <= ite.index@ <= ite.seq().len(),
-                    forall|k: int| 0 <= k < ite.index@ ==> (#[trigger] crate::node_edges_spec(predicate.starts(), predicate.edges@, node_ix as int)->Some_0[k] as int) < predicate.nodes@.len(),
+                    forall|k: int| 0 <= k < ite.index@ ==> (#[trigger] crate::node_edges_spec(%(S)s, node_ix as int)->Some_0[k] as int) < predicate.nodes@.len(),
                     forall|n: u16| (n as int) <= node_ix ==> nodes@.contains_key(n),
-                    forall|i: int| 0 <= i < node_ix ==> #[trigger] crate::node_ok(predicate.starts(), predicate.edges@, i)"""}},
+                    forall|i: int| 0 <= i < node_ix ==> #[trigger] crate::node_ok(%(S)s, i),
+                    predicate.nodes@.len() <= 0x1_0000 ==> (forall|n: u16| #[trigger] nodes@.contains_key(n) ==> nodes@[n]@ == crate::plist(%(S)s, n, node_ix as int, ite.index@ as int)),
+                    predicate.nodes@.len() <= 0x1_0000 ==> (forall|n: u16| !nodes@.contains_key(n) ==> (#[trigger] crate::plist(%(S)s, n, node_ix as int, ite.index@ as int)).len() == 0)""" % {'S': _S2}}},
         hints=[('Ok(nodes)', 'before', 'assert(predicate.starts().len() == predicate.nodes@.len());'),
-               ('for edge in predicate', 'before', 'assert(crate::node_ok(predicate.starts(), predicate.edges@, node_ix as int) ==> crate::node_edges_spec(predicate.starts(), predicate.edges@, node_ix as int) is Some);'),
-               ('return Err(PredicateError::InvalidNodeEdges(node_ix));', 'before', """assert(!crate::node_ok(predicate.starts(), predicate.edges@, node_ix as int)) by {
-                    let es = crate::node_edges_spec(predicate.starts(), predicate.edges@, node_ix as int)->Some_0;
-                    assert(es[ite.index@ as int] == *edge); }""")],
+               ('let mut nodes: BTreeMap<u16, Vec<u16>> = BTreeMap::new();', 'after', 'assert(forall|n: u16| (#[trigger] crate::plist(%(S)s, n, 0, 0)).len() == 0);' % {'S': _S2}),
+               ('nodes.entry(node_ix as u16).or_default();', 'after', """if predicate.nodes@.len() <= 0x1_0000 {
+                    assert((node_ix as u16) as int == node_ix);
+                    assert forall|n: u16| #[trigger] nodes@.contains_key(n) implies nodes@[n]@ == crate::plist(%(S)s, n, node_ix as int, 0) by {
+                        if n == node_ix as u16 && !nodes0.contains_key(n) { assert(crate::plist(%(S)s, n, node_ix as int, 0).len() == 0); assert(nodes@[n]@ =~= crate::plist(%(S)s, n, node_ix as int, 0)); }
+                        else { assert(nodes0.contains_key(n)); assert(nodes@[n] == nodes0[n]); } } }""" % {'S': _S2}),
+               ('nodes.entry(node_ix as u16).or_default();', 'before', 'let ghost nodes0 = nodes@;', 'ghost'),
+               ('for edge in predicate', 'before', 'assert(crate::node_ok(%(S)s, node_ix as int) ==> crate::node_edges_spec(%(S)s, node_ix as int) is Some);' % {'S': _S2}),
+               ('return Err(PredicateError::InvalidNodeEdges(node_ix));', 'before', """assert(!crate::node_ok(%(S)s, node_ix as int)) by {
+                    let es = crate::node_edges_spec(%(S)s, node_ix as int)->Some_0;
+                    assert(es[ite.index@ as int] == *edge); }""" % {'S': _S2})],
         props=('C01', 'C06')))
     # in-degree of a node = number of incoming edges, counted with multiplicity (one per entry of its parent list)
     so.fn('in_degrees', F('in_degrees',
